@@ -185,3 +185,37 @@ Example C02_graph_example :
   /\ outdated xg s 4%nat = true.
 Proof. exact (conj xg_wf (conj xsum_means graph_example)). Qed.
 Print Assumptions C02_graph_example.
+
+(* the graph builder's step: the three total nodes appended to ANY well-formed tagged user graph.
+   The result is well-formed, and whenever a total reports itself up to date it holds (in the model
+   state) the reduced sum of the from-scratch values of exactly the selected instances of Dist - for
+   _model_log_prob: all of them -, each exactly once *)
+Theorem C02_builder_wf : forall (F : Type) (fsum : F) (tg : list (tnode F)),
+  wf (map (tn F) tg) -> wf (with_totals F fsum tg).
+Proof. exact with_totals_wf. Qed.
+Print Assumptions C02_builder_wf.
+
+Theorem C02_built_totals : forall (F : Type) (fsum : F) (interp : F -> list sval -> sval) (dflt : sval)
+    (tg : list (tnode F)) (ext0 : list sval) (ops : list (op sval)),
+  wf (map (tn F) tg) -> means_reduced_sum F interp fsum ->
+  let g := with_totals F fsum tg in
+  let s := cur (run interp dflt g ops (init interp dflt g ext0)) in
+  forall (p : dtag -> bool) (k : nat),
+  (p = tag_lik /\ k = pos_lik F tg) \/ (p = tag_prior /\ k = pos_prior F tg) \/ (p = tag_prob /\ k = pos_prob F tg) ->
+  outdated g s k = false ->
+  value interp dflt g s k
+    = Scalar (reduced_sum (map (denote interp dflt g (vals s)) (positions (on_tag F p) tg)))
+  /\ getv dflt (vals s) k = value interp dflt g s k
+  /\ NoDup (positions (on_tag F p) tg)
+  /\ (forall i, In i (positions (on_tag F p) tg) <->
+                exists t x, nth_error tg i = Some t /\ ttag F t = Some x /\ p x = true).
+Proof. exact built_totals. Qed.
+Print Assumptions C02_built_totals.
+
+Example C02_builder_example :
+  with_totals xsym XSum xtg = xg
+  /\ wf (map (tn xsym) xtg)
+  /\ positions (on_tag xsym tag_prob) xtg = [2%nat; 3%nat]
+  /\ pos_prob xsym xtg = 6%nat.
+Proof. exact builder_example. Qed.
+Print Assumptions C02_builder_example.
